@@ -90,9 +90,11 @@ def cases(rng, tier):
 		yield ('s', side, s, tuple(cuts))
 	# directed: every token (plus every codec name Python knows, as RFC 2047 word and RFC 2231 charset) as the value / a
 	# parameter / a list member of every field the parser looks at, in a header, an upgrade request and a trailer
-	combos = [(f, t, tm, b) for f in FIELDS for t in directed_tokens() for tm in TEMPLATES for b in BASES]
+	toks = directed_tokens()
+	combos = [(f, t, tm, b) for f in FIELDS for t in toks for tm in TEMPLATES for b in BASES]
 	if tier != 'thorough':
-		combos = rng.sample(combos, 6000)
+		# a sample of the whole product, and every token at least twice in a field the parser consults
+		combos = rng.sample(combos, 4000) + [(rng.choice(FIELDS[:9]), t, rng.choice(TEMPLATES), rng.choice(BASES)) for t in toks for _ in (0, 1)]
 	for f, t, tm, b in combos:
 		yield ('s', 'server', b % (f, tm % t), ((),))
 	# every scheme name the URI registry knows on this tree, and the well-known ones it may learn, as absolute-form targets
@@ -121,7 +123,14 @@ BASES = [b'POST / HTTP/1.1\r\nHost: h\r\n%s: %s\r\nContent-Length: 1\r\n\r\nx',
 
 def directed_tokens():
 	import encodings.aliases
-	names = sorted(set(encodings.aliases.aliases.values()) | {'idna', 'punycode', 'undefined', 'unicode_escape', 'raw_unicode_escape', 'utf_8_sig', 'mbcs', 'oem'})
+	names = set(encodings.aliases.aliases.values()) | set(encodings.aliases.aliases.keys()) | {'idna', 'punycode', 'undefined', 'unicode_escape', 'raw_unicode_escape', 'utf_8_sig', 'mbcs', 'oem'}
+	try:
+		# the names the library itself lists (aimed at, not trusted): every one of them, also in upper case
+		from httoop.util import KNOWN_ENCODINGS
+		names |= set(KNOWN_ENCODINGS) | {n.upper() for n in KNOWN_ENCODINGS}
+	except Exception:
+		pass
+	names = sorted(names)
 	return (list(wire.TOKENS) + [b'=?%s?q?ab=ff?=' % n.encode() for n in names] + [b'=?%s?b?/4A=?=' % n.encode() for n in names]
 		+ [b"t*=%s''%%ff%%80a" % n.encode() for n in names]
 		# payloads that some codecs decode to lone surrogates (UTF-7 "+2AA-", the escape codecs "\\ud800"): no text, not encodable again
